@@ -65,7 +65,10 @@ def _mixins(oe):
     oe.external_base_methods.update({"append": append, "extend": extend, "pop": pop, "clear": clear, "__iadd__": iadd})
 
 
-def _views(repo: Repo, oe, P) -> Dict[str, Any]:
+VIEW_NAMES = ("program", "summaries", "verdict", "bytes", "queries")
+
+
+def _views(repo: Repo, oe, P, queries_first: bool = False) -> Dict[str, Any]:
     """Every derived view of P, each as ('ok', value) or ('raises', exception name)."""
     out: Dict[str, Any] = {}
 
@@ -95,10 +98,19 @@ def _views(repo: Repo, oe, P) -> Dict[str, Any]:
         r = oe.module_global(repo.modules[A], "check_safety")(P, analyzer=az)
         return (r.sa_attr("severity")[1]["name"], tuple(str(f.sa_attr("message")) for f in r.sa_attr("results")))
 
+    def queries():
+        # the boolean / listing queries of Pickled itself (each a derived view with its own path to the caches)
+        names = lambda it: sorted(f"{getattr(n, 'module', None)}:{','.join(a.name for a in n.names)}" for n in list(it))
+        return (P.sa_attr("has_import"), P.sa_attr("has_call"), P.sa_attr("has_non_setstate_call"), names(P.sa_attr("unsafe_imports")()), names(P.sa_attr("non_standard_imports")()), P.sa_attr("nb_opcodes"))
+
+    if queries_first:
+        view("queries", queries)
     view("program", program)
     view("summaries", summaries)
     view("verdict", verdict)
     view("bytes", lambda: P.sa_attr("dumps")())
+    if not queries_first:
+        view("queries", queries)
     return out
 
 
@@ -165,12 +177,16 @@ def run_sequence(repo: Repo, blabel: str, base: bytes, seq: Tuple[int, ...]) -> 
         except PyRaise:
             pass  # an edit that raises (e.g. a helper refusing a pickle that no longer ends in STOP) is still followed by reads
         got = _views(repo, oe, P)
+        again = _views(repo, oe, P)  # read a second time before the next edit: a view is not used up by being looked at
+        for name in VIEW_NAMES:
+            if got[name] != again[name]:
+                devs.append((f"view-changes-when-read-again:{name}", f"on {blabel}, after `{' ; '.join(done)}` the {name} is {str(got[name])[:100]} when first read and {str(again[name])[:100]} when read again (no edit in between)"))
         try:
             fresh = oe.ref(pk)(list(P.sa_attr("__iter__")()))
         except PyRaise as pe:
             return devs + [(f"cannot-copy:{pe.name}", f"{blabel}; {' ; '.join(done)}: Pickled(list(p)) raises {pe.name}")]
         want = _views(repo, oe, fresh)
-        for name in ("program", "summaries", "verdict", "bytes"):
+        for name in VIEW_NAMES:
             if got[name] != want[name]:
                 op_kind = (label.split("(")[0].split(" ")[0].split("[")[0] or label) if not isinstance(k, tuple) else "insert-of-class:" + k[1].split(".")[-1]
                 devs.append((f"stale-{name}:{op_kind}", f"on {blabel}, after `{' ; '.join(done)}` (all views read before and between the edits) the {name} is {str(got[name])[:110]}, a fresh Pickled with the same opcodes gives {str(want[name])[:110]}"))
@@ -222,6 +238,9 @@ def explore(repo: Repo, tier: str):
 
     b0 = _bases()[0]
     items += [(b0[0], b0[1], (("class", o.cls.qualname),)) for o in opcode_registry(repo)[0]]
+    # opcodes the pickler does not write any more, edited once each
+    for rare in (("OBJ with two arguments (protocol 0)", b"(cdecimal\nDecimal\nS'1.5'\nK\x02o."), ("os.system by INST (protocol 0)", b"(S'id'\nios\nsystem\n."), ("NEWOBJ_EX with keywords (protocol 4)", b"\x80\x04ccollections\nOrderedDict\n)}(\x8c\x01xK\x03u\x92.")):
+        items += [(rare[0], rare[1], (i,)) for i in range(n_ops)]
     jobs = min(int(os.environ.get("SA_JOBS", "16")), os.cpu_count() or 1)
     chunks = [items[i::jobs] for i in range(jobs)]
 
@@ -258,6 +277,9 @@ def _history_inputs():
         ("floats 1.0 and 0.0 (protocol 2)", pickle.dumps([1.0, 0.0, -0.0], 2)),
         ("a non-standard-library call", b"cnot_stdlib_module\nThing\n(S'a'\ntR."),
         ("a dict with shared keys (protocol 4)", pickle.dumps({"a": ("x", "x"), "b": ("x",)}, 4)),
+        ("os.system by INST (protocol 0: the import comes from INST alone)", b"(S'id'\nios\nsystem\n."),
+        ("NEWOBJ_EX with an empty keyword dict (protocol 4)", b"\x80\x04ccollections\nOrderedDict\n)}\x92."),
+        ("OBJ with two arguments (protocol 0)", b"(cdecimal\nDecimal\nS'1.5'\nK\x02o."),
     ]
 
 
@@ -285,7 +307,14 @@ def history_world(repo: Repo, a, b, mode: str) -> List[Tuple[str, str]]:
         return oe
 
     oe1 = fresh_oe()
-    alone = _views(repo, oe1, oe1.ref(pk).sa_attr("load")(a[1]))
+    P1 = oe1.ref(pk).sa_attr("load")(a[1])
+    alone = _views(repo, oe1, P1, queries_first=True)  # (in the fresh process the boolean queries come first, in the other one last)
+    devs = []
+    if mode == "same-bytes-twice":
+        again = _views(repo, oe1, P1)  # the same object asked a second time
+        for name in VIEW_NAMES:
+            if alone[name] != again[name]:
+                devs.append((f"not-repeatable-{name}", f"the {name} of {a[0]} is {str(alone[name])[:100]} the first time it is asked and {str(again[name])[:100]} the second time (same object, nothing edited in between)"))
     oe2 = fresh_oe()
     Pb = oe2.ref(pk).sa_attr("load")(b[1])
     if mode == "after-full-analysis":
@@ -300,8 +329,7 @@ def history_world(repo: Repo, a, b, mode: str) -> List[Tuple[str, str]]:
     else:  # twice the same bytes, two objects
         _views(repo, oe2, oe2.ref(pk).sa_attr("load")(a[1]))
     after = _views(repo, oe2, oe2.ref(pk).sa_attr("load")(a[1]))
-    devs = []
-    for name in ("program", "summaries", "verdict", "bytes"):
+    for name in VIEW_NAMES:
         if alone[name] != after[name]:
             devs.append((f"history-dependent-{name}:{mode}", f"the {name} of {a[0]} is {str(after[name])[:100]} when {('the same bytes were analysed before' if mode == 'same-bytes-twice' else b[0] + ' was ' + ('analysed' if mode == 'after-full-analysis' else 'half decompiled and abandoned') + ' before')} in the process, and {str(alone[name])[:100]} in a fresh process"))
     return devs
